@@ -26,7 +26,7 @@ def c14_extra(tier, seed, harness, problems, stats, build_harness):
         if len(problems) == n_before:
             problems.append({"kind": "race", "detail": "could not build the -race harness"})
         return
-    rounds = 150 if tier == "quick" else 1500
+    rounds = 300 if tier == "quick" else 1000
     seeds = [seed] if tier == "quick" else [seed + 1000 * k for k in range(4)]
     for s in seeds:
         env = dict(GOENV, GORACE="halt_on_error=0 exitcode=66")
